@@ -634,19 +634,31 @@ def prop_api(case, ctx):
                                 f"{src!r} on outcomes {occ}: states differ")
     # independent oracle: the measurement is deterministic (outcomes == occ), so Python's
     # own value of the expression decides what must have happened to the remaining photon
+    # Python's value on the outcome objects the simulator actually hands over (numpy
+    # integers: e.g. 0 / np.int32(0) is nan with a warning, not a ZeroDivisionError)
+    actual = res[0][1][0] if res[0][0] == "ok" and res[0][1] else tuple(
+        np.int32(v) for v in occ)
+    if [int(v) for v in actual] != list(occ):
+        raise Violation(f"C20:api-{case['kind']}:outcomes", f"outcomes {actual} != {occ}")
     try:
-        value, py_exc = py_eval(src, tuple(occ)), None
+        with np.errstate(all="ignore"):
+            value, py_exc = py_eval(src, tuple(actual)), None
     except Exception as err:  # noqa: BLE001
         value, py_exc = None, err
     if py_exc is not None:
         if res[0][0] == "ok":
             raise Violation(f"C20:api-{case['kind']}:python-raises-but-program-ran",
-                            f"{src!r} on outcomes {occ}: Python raises {py_exc!r}")
+                            f"{src!r} on outcomes {actual!r}: Python raises {py_exc!r}")
         return
     if case["kind"] == "when":
-        phase = 0.3 if bool(value) else 0.0
+        try:
+            phase = 0.3 if bool(value) else 0.0
+        except Exception:  # noqa: BLE001 — truth value undefined (e.g. array)
+            ctx.count("api_condition_truth_value_undefined")
+            return
     else:
-        if isinstance(value, (bool, int, float)) and math.isfinite(value):
+        if isinstance(value, (bool, int, float, np.integer, np.floating, np.bool_)) \
+                and math.isfinite(float(value)):
             phase = float(value)
         else:
             ctx.count("api_param_not_a_number")
